@@ -274,7 +274,12 @@ func MarshalError(err error) (errorBody []byte, httpStatus int) {
 	var ociErr Error
 	if errors.As(err, &ociErr) {
 		e.Code_ = ociErr.Code()
-		e.Detail_ = ociErr.Detail()
+		// The detail goes into the body as it is, so it must be
+		// JSON: anything else cannot be sent (and would make
+		// json.Marshal fail below) and is left out.
+		if detail := ociErr.Detail(); json.Valid(detail) {
+			e.Detail_ = detail
+		}
 	}
 	if e.Code_ == "" {
 		// This is contrary to spec, but it's what the Docker registry
